@@ -540,7 +540,8 @@ func c11prop(r *simkit.Run) {
 			} else {
 				d = time.Duration(rapid.IntRange(1, 5000).Draw(rt, "adv-ms")) * time.Millisecond
 			}
-			if d > 0 {
+			// the harness measures ages as time.Duration, which holds 292 years: a run stays within 250
+			if d > 0 && now()+d < 250*365*24*time.Hour {
 				clock.Advance(d)
 				r.SimTime(d)
 			}
